@@ -75,10 +75,14 @@ def write_module(workdir, modname, body, stub=True):
     return path
 
 
-def ch_tasks(plan, path, name, timeout, twin_timeout=20, est=None, **meta):
+def ch_tasks(plan, path, name, timeout, twin_timeout=20, est=None, enum=None, **meta):
     """Register harness + twin tasks for function `name` of module `path`."""
     tid = f'{os.path.basename(path)[:-3]}.{name}'
     plan.add({'kind': 'ch', 'id': tid, 'module': path, 'fn': name, 'timeout': timeout, 'est': est or min(timeout, 4)}, **meta)
     plan.add({'kind': 'ch', 'id': tid + '#twin', 'module': path, 'fn': name + '_twin', 'timeout': twin_timeout,
               'twin_of': tid, 'est': 1.5})
+    if enum:
+        # finite input domain: also call the harness natively on every combination (see worker.run_enum)
+        plan.add({'kind': 'enum', 'id': tid + '#enum', 'module': path, 'fn': name, 'domain': enum, 'timeout': 600, 'est': 5},
+                 family=meta.get('family'), native_enumeration_of=tid)
     return tid
